@@ -218,6 +218,34 @@ def _offset_rules(ck):
                     if isinstance(s_, ast.Subscript) and norm(s_.value) == "self.bin" and isinstance(s_.slice, ast.Slice) and s_.slice.lower is not None:
                         sinks.append((nd, s_, s_.slice.lower, None))
         ck.need(sinks, "%s._getbytes: access to the source not found" % cname)
+        # a file source is read at its current position: every path to the read positions the file at the rebased offset first
+        # (a skipped seek is acceptable only where the current position is known to BE the rebased offset)
+        reads = [nd for nd in cfg.nodes if any(dotted(c.func) == "self.bin.read" for c in node_calls(nd))]
+        if reads:
+            from sa.pathob import undischarged, path_text
+
+            def lin_x(e):
+                return linear(res.expand_node(e))
+            want = (frozenset([(start, 1), ("self.base_address", -1)]), 0)
+
+            def positions(nd):
+                return any(dotted(c.func) == "self.bin.seek" and len(c.args) == 1 and lin_x(c.args[0]) == want for c in node_calls(nd))
+
+            def already_there(nd, label):
+                if nd.kind != "test" or not isinstance(nd.ast, ast.Compare) or len(nd.ast.ops) != 1:
+                    return False
+                op = nd.ast.ops[0]
+                if not ((isinstance(op, ast.Eq) and label is True) or (isinstance(op, ast.NotEq) and label is False)):
+                    return False
+                d = _lin_sub(lin_x(nd.ast.left), lin_x(nd.ast.comparators[0]))
+                tell = (frozenset([(start, 1), ("self.base_address", -1), ("self.bin.tell()", -1)]), 0)
+                neg = (frozenset((k, -v) for k, v in tell[0]), 0)
+                return d == tell or d == neg
+            for rd in reads:
+                p_ = undischarged(cfg, positions, edge_ok=already_there, targets=[rd.id])
+                ck.ob("R6", "%s._getbytes:positioned-before-read" % cname, p_ is None, m.where(rd.ast),
+                      "the file can be read without having been positioned at %s - self.base_address (path: %s): the bytes come from wherever "
+                      "the file pointer was" % (start, path_text(p_) if p_ else ""))
         rebased_in_place = any(nd.kind == "stmt" and isinstance(nd.ast, ast.AugAssign) and isinstance(nd.ast.op, ast.Sub) and norm(nd.ast.target) == start
                                and norm(nd.ast.value) == "self.base_address" for nd in cfg.nodes) or \
             any(nd.kind == "stmt" and isinstance(nd.ast, ast.Assign) and norm(nd.ast.targets[0]) == start and norm(nd.ast.value) == "%s - self.base_address" % start for nd in cfg.nodes)
